@@ -47,6 +47,10 @@ class KNone(Kind):
     pass
 
 
+class KAny(Kind):
+    """A value the verified code only stores and passes on (user ids: ints or strings): an opaque code."""
+
+
 class KRef(Kind):
     def __init__(self, cls):
         self.cls = cls
@@ -109,12 +113,13 @@ class KFunc(Kind):
 
 
 INT, BOOL, FLOAT, REAL, STR, NONE, FUNC = KInt(), KBool(), KFloat(), KReal(), KStr(), KNone(), KFunc()
+ANY = KAny()
 
 
 def flat(kind):
     """z3 sorts of the flattened representation."""
     I, B, R = z3.IntSort(), z3.BoolSort(), z3.RealSort()
-    if isinstance(kind, (KInt, KStr, KRef)):
+    if isinstance(kind, (KInt, KStr, KRef, KAny)):
         return [I]
     if isinstance(kind, KBool):
         return [B]
@@ -152,7 +157,7 @@ def parse_kind(s):
     """
     s = s.strip()
     base = {"int": INT, "bool": BOOL, "float": FLOAT, "real": REAL, "str": STR, "none": NONE,
-            "func": FUNC}
+            "func": FUNC, "any": ANY}
     if s in base:
         return base[s]
     if "[" in s:
